@@ -10,6 +10,7 @@ import GraphiqModel.Proofs.InnerProductFull
 import GraphiqModel.Proofs.InnerProductHilbert
 import GraphiqModel.Proofs.InvHilbert
 import GraphiqModel.Proofs.InvValid
+import GraphiqModel.Proofs.InnerProductCount
 namespace Graphiq.C05
 open Graphiq Graphiq.PRow Graphiq.STab Graphiq.Tab
 
@@ -334,10 +335,18 @@ theorem fidelity_on_valid_tableaux (a b : Tab) (va : a.Valid) (vb : b.Valid) (hn
     which the correspondence harness compares with the *real* `fidelity` on every pair with n ≤ 3) decides `Orth`, and the
     membership test behind its count `STab.commonCount` decides "this subset product of `a`'s rows lies in the group of
     `b`" — so the predicates the fidelity theorems speak about are themselves checked against the code's values.
-    (That the count equals `2^dim(A ∩ B)` for independent generators is the textbook `|A ∩ B| = 2^dim`; not proved.) -/
+    That the count equals `2^dim(A ∩ B)` is `overlap_spec_count_exact` below. -/
 theorem overlap_spec_checker_exact (a b : STab) (ga : a.Good) (gb : b.Good) (hn : a.n = b.n) :
     (a.orthB b = true ↔ Orth a b) ∧ ∀ ma, (a.commonB b ma = true ↔ b.Spn (mprod a.n a.row ma a.n)) :=
   ⟨orthB_iff a b ga gb hn, commonB_iff a b gb hn⟩
+
+/-- **… and its count is `2^dim(A ∩ B)`** (every n): for independent real commuting generators of `A` the number
+    `STab.commonCount` of subsets of `A`'s rows whose product lies in the group of `B` — the number the harness reads from
+    the driver and compares with the real fidelity — is `2^d` whenever `A ∩ B` has an independent generating set of `d`
+    elements (`|A ∩ B| = 2^dim`). -/
+theorem overlap_spec_count_exact (a b : STab) (ga : a.Good) (gb : b.Good) (ia : a.Indep) (hn : a.n = b.n) (d : Nat)
+    (h : OverlapDim a b d) : a.commonCount b = 2 ^ d :=
+  commonCount_eq a b ga gb ia hn d h
 
 /-! ### Non-vacuity -/
 def bellMinus : STab :=   -- generators −XX, ZZ in the gauge (−XX·ZZ = YY, ZZ):  YY, ZZ
@@ -496,6 +505,13 @@ example : bellPlusTab.Valid ∧ ket00Tab.Valid ∧
 /-- the hypotheses of `fidelity_on_valid_tableaux` are met by Φ⁺ and |00⟩ -/
 example : bellPlusTab.Valid ∧ ket00Tab.Valid ∧ bellPlusTab.n = ket00Tab.n :=
   ⟨(Tab.isSymplectic_iff _).1 (by decide), (Tab.isSymplectic_iff _).1 (by decide), rfl⟩
+
+/-- the hypotheses of `overlap_spec_count_exact` are met by Φ⁺ against |00⟩ (rank 1 from `inner_product_exponent`): the
+    theorem gives the count `2^1`, which is what the executable specification evaluates to -/
+example : (STab.ofTab bellPlusTab).commonCount (STab.ofTab ket00Tab) = 2 ^ 1 :=
+  overlap_spec_count_exact _ _ (good_of_check _ (by decide)) (good_of_check _ (by decide)) bell_indep.1 rfl 1
+    (inner_product_exponent bellPlusTab ket00Tab 1 (good_of_check _ (by decide)) (good_of_check _ (by decide))
+      (ok_of_check _ _ (by decide +kernel))).2.2
 
 /-- `overlap_spec_checker_exact` here evaluates to: orthogonal, two common elements with |00⟩ -/
 example : (STab.ofTab bellPlusTab).orthB (STab.ofTab bellMinusTab) = true ∧
